@@ -312,6 +312,22 @@ def run_optimization(case, R):
         nproc.update({"n": 0, "fail_at": None})
         try:
             opt = make_opt()
+            if (u[7] * 1000) % 1 < 0.35:
+                # the same Optimization object has been used before, from another allocation (a what-if loop over budgets):
+                # the second call must start from, and keep the total and the relative limits of, *its* caller's allocation
+                other_alloc = {}
+                base_alloc_ = pset.get_alloc(np.array([start] + adj_years), instr)
+                for j, pn in enumerate(prognames):
+                    f = [2.0, 0.5, 1.7, 0.3][j % 4]
+                    other_alloc[pn] = at.TimeSeries([start] + adj_years, [float(v) * f for v in base_alloc_[pn]])
+                try:
+                    OP.optimize(P, opt, parset, pset, at.ProgramInstructions(start_year=start, alloc=other_alloc))
+                    R.count("optimization_objects_used_a_second_time")
+                except (OP.InvalidInitialConditions, OP.UnresolvableConstraint):
+                    R.count("optimization_objects_used_a_second_time[first use refused]")
+                del evals[:]
+                np.random.seed(case["asd_seed"])
+                nproc.update({"n": 0, "fail_at": None})
             out_instr = OP.optimize(P, opt, parset, pset, instr)
             completed = True
         except OP.InvalidInitialConditions:
